@@ -9,6 +9,8 @@ pub fn generate(kind: &str, r: &mut Rng, i: u64) -> Vec<String> {
         "link-exact" => link_exact(r, i),
         "link-burst" => link_burst(r, i),
         "hostile" => hostile(r, i),
+        "conn" => conn(r, i, false),
+        "conn-cycles" => conn(r, i, true),
         _ => panic!("unknown generator {kind}"),
     }
 }
@@ -585,6 +587,192 @@ fn hostile(r: &mut Rng, _i: u64) -> Vec<String> {
         l.push("settle".into());
     }
     l.push("settle".into());
+    l.push("end".into());
+    l
+}
+
+/// Connection-level scenarios for C07/C10: concurrent connects, accepts, inspected requests that
+/// are accepted, rejected or dropped, cancelled calls, port batches, drops in any order, small
+/// `max_ports` and `connect_queue`; every step is followed by a settle so that the run is a
+/// deterministic function of the script.  `cycles`: repeated open/transfer/close rounds.
+fn conn(r: &mut Rng, _i: u64, cycles: bool) -> Vec<String> {
+    let mut l = vec!["mode exact".to_string()];
+    let mut cq = [0u64; 2];
+    let mut ports = [0u64; 2];
+    for s in 0..2 {
+        cq[s] = *r.pick(&[1u64, 1, 2, 3]);
+        ports[s] = *r.pick(&[1u64, 2, 3, 4, 8]);
+        l.push(format!(
+            "cfg {} chunk={} buf={} cq={} ports={} maxdata=64 sq={} tq={} rq={}",
+            if s == 0 { "A" } else { "B" },
+            *r.pick(&[4u64, 8, 16]),
+            *r.pick(&[8u64, 16, 31]),
+            cq[s],
+            ports[s],
+            *r.pick(&[1u64, 2, 16]),
+            *r.pick(&[1u64, 2, 16]),
+            *r.pick(&[1u64, 2, 16])
+        ));
+    }
+    l.push("tasks".into());
+    l.push("start".into());
+    l.push("tasks".into());
+    let sides = ["A", "B"];
+    let mut k = 0u32;
+    // handles that may exist: (side, name)
+    let mut handles: Vec<(usize, String)> = Vec::new();
+    let mut reqs: Vec<(usize, String)> = Vec::new();
+    let mut pending: Vec<String> = Vec::new();
+    let rounds = if cycles { r.range(3, 8) } else { 1 };
+    for round in 0..rounds {
+        let steps = if cycles { r.range(3, 8) } else { r.range(4, 18) };
+        for _ in 0..steps {
+            k += 1;
+            let s = r.below(2) as usize;
+            match r.below(20) {
+                0..=5 => {
+                    let wait = if r.chance(3, 4) { 1 } else { 0 };
+                    l.push(format!("connect c{k} {} c{k} wait={wait}", sides[s]));
+                    handles.push((s, format!("c{k}")));
+                    pending.push(format!("c{k}"));
+                }
+                6..=9 => {
+                    l.push(format!("accept a{k} {} a{k}", sides[s]));
+                    handles.push((s, format!("a{k}")));
+                    pending.push(format!("a{k}"));
+                }
+                10 | 11 => {
+                    l.push(format!("inspect i{k} {} q{k}", sides[s]));
+                    reqs.push((s, format!("q{k}")));
+                    pending.push(format!("i{k}"));
+                }
+                12 | 13 => {
+                    if !reqs.is_empty() {
+                        let idx = r.below(reqs.len() as u64) as usize;
+                        let (rs, rn) = reqs.remove(idx);
+                        match r.below(4) {
+                            0 | 1 => {
+                                l.push(format!("reqaccept x{k} {} {rn} x{k}", sides[rs]));
+                                handles.push((rs, format!("x{k}")));
+                                pending.push(format!("x{k}"));
+                            }
+                            2 => l.push(format!("reqreject x{k} {} {rn} {}", sides[rs], r.bool() as u8)),
+                            _ => l.push(format!("reqdrop {} {rn}", sides[rs])),
+                        }
+                    } else {
+                        continue;
+                    }
+                }
+                14 => {
+                    // ports sent over an existing port
+                    if let Some((hs, hn)) = handles.first().cloned() {
+                        l.push(format!("pconnect pc{k} {} {hn} n={} wait=1", sides[hs], r.range(1, 2)));
+                        l.push("settle".into());
+                        l.push(format!("recvany pr{k} {} {hn}", sides[1 - hs]));
+                        // (the receiving side's handle of that port has another name; the op is harmless if missing)
+                        for i in 0..2 {
+                            reqs.push((1 - hs, format!("pr{k}.{i}")));
+                            handles.push((hs, format!("pc{k}.{i}")));
+                        }
+                    }
+                }
+                15 => {
+                    if !pending.is_empty() {
+                        let idx = r.below(pending.len() as u64) as usize;
+                        let c = pending.remove(idx);
+                        l.push(format!("cancel {c}"));
+                    }
+                }
+                16 | 17 => {
+                    if !handles.is_empty() {
+                        let idx = r.below(handles.len() as u64) as usize;
+                        let (hs, hn) = handles[idx].clone();
+                        match r.below(4) {
+                            0 => l.push(format!("drop {} {hn} tx", sides[hs])),
+                            1 => l.push(format!("drop {} {hn} rx", sides[hs])),
+                            2 => l.push(format!("close cl{k} {} {hn}", sides[hs])),
+                            _ => {
+                                l.push(format!("drop {} {hn} tx", sides[hs]));
+                                l.push(format!("drop {} {hn} rx", sides[hs]));
+                                handles.remove(idx);
+                            }
+                        }
+                    }
+                }
+                18 => l.push(format!("labelall lb{k}")),
+                _ => {
+                    if !cycles && r.chance(1, 3) {
+                        match r.below(2) {
+                            0 => l.push(format!("dropclient {}", sides[s])),
+                            _ => l.push(format!("droplistener {}", sides[s])),
+                        }
+                    } else {
+                        l.push(format!("labelall lb{k}"));
+                    }
+                }
+            }
+            l.push("settle".into());
+        }
+        if cycles {
+            // close the round: exchange labels, then drop every port and request
+            l.push(format!("labelall lbr{round}"));
+            l.push("settle".into());
+            for c in pending.drain(..) {
+                l.push(format!("cancel {c}"));
+            }
+            for (rs, rn) in reqs.drain(..) {
+                l.push(format!("reqdrop {} {rn}", sides[rs]));
+            }
+            // drop in random order
+            while !handles.is_empty() {
+                let idx = r.below(handles.len() as u64) as usize;
+                let (hs, hn) = handles.remove(idx);
+                if r.bool() {
+                    l.push(format!("drop {} {hn} tx", sides[hs]));
+                    l.push(format!("drop {} {hn} rx", sides[hs]));
+                } else {
+                    l.push(format!("drop {} {hn} rx", sides[hs]));
+                    l.push(format!("drop {} {hn} tx", sides[hs]));
+                }
+                if r.chance(1, 3) {
+                    l.push("settle".into());
+                }
+            }
+            l.push("settle".into());
+            l.push("alloccheck A".into());
+            l.push("alloccheck B".into());
+        }
+    }
+    // final: everything is dropped, in random order; the allocators must be back to full capacity
+    for c in pending.drain(..) {
+        l.push(format!("cancel {c}"));
+    }
+    l.push("settle".into());
+    for (rs, rn) in reqs.drain(..) {
+        l.push(format!("reqdrop {} {rn}", sides[rs]));
+    }
+    while !handles.is_empty() {
+        let idx = r.below(handles.len() as u64) as usize;
+        let (hs, hn) = handles.remove(idx);
+        l.push(format!("drop {} {hn} tx", sides[hs]));
+        l.push(format!("drop {} {hn} rx", sides[hs]));
+        if r.chance(1, 4) {
+            l.push("settle".into());
+        }
+    }
+    l.push("settle".into());
+    l.push("dropports".into());
+    l.push("settle".into());
+    l.push("alloccheck A".into());
+    l.push("alloccheck B".into());
+    l.push("droplistener A".into());
+    l.push("droplistener B".into());
+    l.push("settle".into());
+    l.push("alloccheck A final".into());
+    l.push("alloccheck B final".into());
+    l.push("dropall".into());
+    l.push("settle".into());
+    l.push("tasks".into());
     l.push("end".into());
     l
 }
